@@ -739,6 +739,16 @@ func evaluate(r *ev.Run, a *artefact, mu mutation, eps []entry) {
 			return d
 		}
 		sigBase := fmt.Sprintf("ep=%s artefact=%s mutation=%s", ep.name, a.kind, mu.class)
+		ext := extensionClass(mu.class)
+		if ext && !ep.column && !timedOut && pan == "" {
+			r.SetAdd("extension_matrix", a.kind+"|"+classFamily(mu.class)+"|"+ep.name)
+			if a.search {
+				r.Count("searchable_extension_judged_at_call_entry_points", 1)
+				if err != nil {
+					r.Count("searchable_extension_rejected", 1)
+				}
+			}
+		}
 		switch {
 		case timedOut:
 			r.Inconclusive(fmt.Sprintf("reveal call did not return within %s: %s mutated=%s", watchdog, sigBase, ev.Hex(mu.m)))
@@ -774,7 +784,16 @@ func evaluate(r *ev.Run, a *artefact, mu mutation, eps []entry) {
 			continue
 		}
 		// column path
+		if ext {
+			r.SetAdd("extension_matrix", a.kind+"|"+classFamily(mu.class)+"|"+ep.name)
+		}
+		if ext && searchColumn(ep) && a.search {
+			r.Count("searchable_extension_judged_in_search_column", 1)
+		}
 		if bytes.Equal(out, mu.m) {
+			if ext && searchColumn(ep) && a.search {
+				r.Count("searchable_extension_column_unchanged", 1)
+			}
 			r.Count("outcome:column-unchanged", 1)
 			r.Distinct(fmt.Sprintf("%s|%s|%s|unchanged", a.kind, mu.class, ep.name))
 			r.SampleN("column-unchanged:"+a.kind, 1, map[string]interface{}{"artefact": a.kind, "len": a.L, "mutation": mu.class, "detail": mu.desc, "entry_point": ep.name, "outcome": "handed back unchanged", "mutated": ev.Hex(mu.m)})
@@ -782,6 +801,22 @@ func evaluate(r *ev.Run, a *artefact, mu mutation, eps []entry) {
 		}
 		if mu.hashSwapped {
 			r.Violation("value with a swapped search hash not handed back unchanged: "+sigBase, detail(map[string]interface{}{"got": ev.FullHex(out)}))
+			continue
+		}
+		if searchColumn(ep) && carriesHash(mu.m) {
+			// searchable column, the value still begins with a well-formed search hash: unchanged (handled above) or
+			// exactly the plaintext; an envelope revealed in place next to the hash / other bytes was never checked against the hash
+			if in(mu.allow, out) {
+				r.Count("outcome:column-search-revealed-exactly", 1)
+				noteBenign(r, mu.class, ep.name)
+				r.Distinct(fmt.Sprintf("%s|%s|%s|revealed-exactly", a.kind, mu.class, ep.name))
+				continue
+			}
+			what := "something else"
+			if derivable(out, mu.m, mu.allow, 2) {
+				what = "an envelope revealed in place, the hash and the other bytes kept"
+			}
+			r.Violation("searchable column: modified value that carries a search hash neither handed back unchanged nor revealed to exactly the plaintext ("+what+"): "+sigBase, detail(map[string]interface{}{"got": ev.FullHex(out)}))
 			continue
 		}
 		if derivable(out, mu.m, mu.allow, 2) {
@@ -909,7 +944,7 @@ func Run(r *ev.Run) {
 
 	// controls: every unmodified artefact must reveal at every admitting entry point (otherwise "rejected" means nothing)
 	for _, s := range slots {
-		for _, ep := range entries(s.a.fam, s.a.search) {
+		for _, ep := range append(entries(s.a.fam, s.a.search), sessionEntries(s.a)...) {
 			out, err, pan, _, _ := call(ep, s.a.env, s.a.owner, s.a.y)
 			want := s.a.x
 			ok := pan == "" && err == nil && bytes.Equal(out, want)
@@ -940,7 +975,7 @@ func Run(r *ev.Run) {
 	}
 	for si, s := range slots {
 		a := s.a
-		eps := entries(a.fam, a.search)
+		eps := append(entries(a.fam, a.search), sessionEntries(a)...)
 		mrng := gen.New(r.Seed, fmt.Sprintf("c03-mut-%d", si))
 		li := 0
 		for i, L := range Lengths {
@@ -958,6 +993,21 @@ func Run(r *ev.Run) {
 			}
 			n++
 			r.Count("modifications:"+mu.class[:strings.IndexAny(mu.class+":", ":@=(")], 1)
+			if a.search {
+				r.Count("modifications_of_searchable_values:"+classFamily(mu.class), 1)
+			}
+			ch <- job{a, mu, eps}
+		})
+		generateExtensions(r, a, s.d, mrng, func(mu mutation) {
+			if bytes.Equal(mu.m, a.y) {
+				r.Count("noop_modifications_skipped", 1)
+				return
+			}
+			fam := classFamily(mu.class)
+			r.Count("modifications:"+fam, 1)
+			if a.search {
+				r.Count("modifications_of_searchable_values:"+fam, 1)
+			}
 			ch <- job{a, mu, eps}
 		})
 		if a.fam == "ab" && a.L == 5 {
@@ -987,6 +1037,18 @@ func Run(r *ev.Run) {
 	r.RequireAtLeast("modifications:splice", 100)
 	r.RequireAtLeast("modifications:swaphash", 40)
 	r.RequireAtLeast("modifications:keyid", int64(r.Pick(500, 65000)))
+	// extension / insertion workload (extension.go)
+	r.RequireAtLeast("modifications:insert", 500)
+	r.RequireAtLeast("modifications:insert@hash|envelope", 16*6)
+	r.RequireAtLeast("modifications:prepend", 90)
+	r.RequireAtLeast("modifications:swaphash+append", 16*3*4)
+	r.RequireAtLeast("modifications:swaphash+insert", 16*3*3)
+	r.RequireAtLeast("modifications_of_searchable_values:append", 16*7)
+	r.RequireAtLeast("searchable_extension_judged_in_search_column", 1500)
+	r.RequireAtLeast("searchable_extension_judged_at_call_entry_points", 3000)
+	r.RequireAtLeast("control_revealed:column-session:search_as", 16)
+	r.RequireAtLeast("control_revealed:column-session:search_ab", 16)
+	r.RequireSetAtLeast("extension_matrix", 280)
 	if ProxyLayer != nil {
 		ProxyLayer(r)
 	}
